@@ -226,6 +226,6 @@ pub fn def() -> PropDef {
         level: "exploration",
         rule: "case index walks socket kind (PUSH/DEALER/REQ) x peer count 0..4; peers join after drawn delays (some before the first send, some between sends); 1..14 sends with drawn shapes; connection taps are snapshotted at the instant send returns (same task step); membership is taken from Accepted monitor events; rotation is asserted only over maximal runs of sends with unchanged membership; non-trivial = a rotation window of >= 2 peers was judged or a no-peer send was judged; distinct = distinct (plan, schedule, transport) hashes",
         assumptions: &["peers do not depart in this scenario (departure + rejoin is judged under C16)", "REQ partners always reply, so that REQ can alternate"],
-        strata: vec![Stratum { name: "rr_world", quick: 120_000, thorough: 2_000_000, exhaustive: (false, false), run: rr_world, what: "send placement at return time, strict rotation over stable membership, empty rotation" }],
+        strata: vec![Stratum { name: "rr_world", quick: 120_000, thorough: (2_000_000) * 5, exhaustive: (false, false), run: rr_world, what: "send placement at return time, strict rotation over stable membership, empty rotation" }],
     }
 }
